@@ -65,7 +65,7 @@ Proof. destruct ik; [apply ns_mk_arg | apply ns_mk_spread_arg]. Qed.
 
 Lemma ns_assign_right e ik : mu (assign_right e ik) = mu e.
 Proof.
-  destruct ik; [reflexivity|]. unfold assign_right, mk_array, mk. rewrite ns_node by reflexivity.
+  destruct ik; [unfold assign_right; destruct (is_kind KSeq e); [unfold mk_paren, mk; rewrite ns_node by reflexivity; simpl; lia | reflexivity]|]. unfold assign_right, mk_array, mk. rewrite ns_node by reflexivity.
   unfold nL. cbn [mul fold_right]. rewrite ns_node by reflexivity.
   cbn [mul fold_right]. rewrite ns_mk_spread_arg. lia.
 Qed.
